@@ -394,6 +394,22 @@ def record_c06(binary, tier, seed):
             steps.append({"op": "new", "n": w, "lang": (a + seed) % 10, "script": [{"k": a, "err": ""}, {"k": need - a, "err": ""}], "after": "data", "fill": 9})
         steps.append({"op": "new", "n": w, "lang": seed % 10, "script": [{"k": 1, "err": ""}] * need, "after": "data", "fill": 9})
         steps.append({"op": "cut"})
+    # the same protocol through sources of other dynamic types: an io.ByteReader, a *bufio.Reader (fresh per call,
+    # so that read-ahead does not carry over); a library that type-switches on its source must not change behaviour
+    allruns = [st for st in steps if st.get("op") == "new"]
+    for kind in ("bytereader", "bufio"):
+        pick = rng.sample(allruns, min(len(allruns), 300 if tier == "quick" else 3000))
+        if kind == "bytereader":
+            steps.append({"op": "swap", "kind": kind})
+        for i, st in enumerate(pick):
+            if kind == "bufio":
+                steps.append({"op": "swap", "kind": kind})
+            steps.append(dict(st))
+            nrun += 1
+            if i % 60 == 59:
+                steps.append({"op": "cut"})
+        steps.append({"op": "cut"})
+    steps.append({"op": "swap", "kind": "script"})
     # the model's "custom" failure stands for any error that is not EOF: concretised with the kinds of error real
     # sources return (temporary ones included), once followed by more data and once by the same failure for ever
     kinds = ["EINTR", "EAGAIN", "temporary", "wrappedEOF", "noprogress", "shortbuffer", "closedpipe", "deadline", "custom", "EOF", "UEOF"]
